@@ -121,7 +121,11 @@ type Exec struct {
 	asserts    map[string]*assertStat
 	fs         *fileModel
 	goroutines int
+	randBudget int
+	mapOrders  bool
 	expectPanicDepth int
+	local            *localCtx
+	mergeFns         map[string]bool
 	curFrame   *frame
 	chanSeq    int
 	clock      *Term
@@ -203,6 +207,8 @@ func (ex *Exec) resetPath(item workItem) {
 	ex.asserts = map[string]*assertStat{}
 	ex.fs = newFileModel()
 	ex.goroutines = 0
+	ex.randBudget = 0
+	ex.mapOrders = false
 	ex.expectPanicDepth = 0
 	ex.curFrame = nil
 	ex.clock = nil
@@ -258,6 +264,9 @@ func (ex *Exec) branch(c *Term) bool {
 	if c.IsConst() {
 		return c.val == 1
 	}
+	if ex.local != nil {
+		return ex.branchLocal(c)
+	}
 	pos := len(ex.decisions)
 	if pos < len(ex.prefix) {
 		d := ex.prefix[pos]
@@ -292,6 +301,9 @@ func (ex *Exec) branch(c *Term) bool {
 	ff := rf != Unsat
 	switch {
 	case tf && ff:
+		if ex.curFrame != nil {
+			ex.stubHits["fork@"+ex.curFrame.fn.String()]++
+		}
 		ex.pending = append(ex.pending, workItem{prefix: clonePrefix(ex.decisions, 0)})
 		ex.decisions = append(ex.decisions, 1)
 		ex.addPC(c)
@@ -307,6 +319,120 @@ func (ex *Exec) branch(c *Term) bool {
 	}
 	ex.end(OutInfeasible, "both branch sides infeasible")
 	return false
+}
+
+type localCtx struct {
+	prefix    []int64
+	decisions []int64
+	pending   [][]int64
+}
+
+func (ex *Exec) branchLocal(c *Term) bool {
+	l := ex.local
+	pos := len(l.decisions)
+	if pos < len(l.prefix) {
+		d := l.prefix[pos]
+		l.decisions = append(l.decisions, d)
+		if d == 1 {
+			ex.addPC(c)
+		} else {
+			ex.addPC(ex.tc.Not(c))
+		}
+		return d == 1
+	}
+	rt := ex.checkPC(c)
+	var rf Result
+	if rt == Unsat {
+		rf = Sat
+	} else {
+		rf = ex.checkPC(ex.tc.Not(c))
+	}
+	if rt == Unknown || rf == Unknown {
+		ex.inconcl++
+	}
+	tf, ff := rt != Unsat, rf != Unsat
+	switch {
+	case tf && ff:
+		l.pending = append(l.pending, clonePrefix(l.decisions, 0))
+		l.decisions = append(l.decisions, 1)
+		ex.addPC(c)
+		return true
+	case tf:
+		l.decisions = append(l.decisions, 1)
+		ex.addPC(c)
+		return true
+	case ff:
+		l.decisions = append(l.decisions, 0)
+		ex.addPC(ex.tc.Not(c))
+		return false
+	}
+	ex.end(OutInfeasible, "both branch sides infeasible (merge)")
+	return false
+}
+
+// mergeCall runs a side-effect-free function on all of its feasible paths and joins the results into
+// one ite-term, so that the caller does not fork (function summarisation by state merging).
+func (ex *Exec) mergeCall(caller *frame, fn *ssa.Function, args []Value) Value {
+	if ex.local != nil {
+		return ex.callFnBody(caller, fn, args, nil)
+	}
+	basePC := len(ex.pc)
+	baseHash := ex.pcHash
+	type res struct {
+		cond *Term
+		v    Value
+	}
+	var results []res
+	work := [][]int64{nil}
+	defer func() { ex.local = nil }()
+	for len(work) > 0 {
+		pre := work[len(work)-1]
+		work = work[:len(work)-1]
+		ex.pc = ex.pc[:basePC]
+		ex.pcHash = baseHash
+		ex.local = &localCtx{prefix: pre}
+		cargs := make([]Value, len(args))
+		for i, a := range args {
+			cargs[i] = ex.copyVal(a)
+		}
+		v := ex.callFnBody(caller, fn, cargs, nil)
+		cond := ex.tc.Bool(true)
+		for _, c := range ex.pc[basePC:] {
+			cond = ex.tc.And(cond, c)
+		}
+		results = append(results, res{cond, v})
+		work = append(work, ex.local.pending...)
+		if len(results) > 256 {
+			ex.end(OutIncomplete, "merge: more than 256 paths in "+fn.String())
+		}
+	}
+	ex.local = nil
+	ex.pc = ex.pc[:basePC]
+	ex.pcHash = baseHash
+	ex.stubHits["merged:"+fn.String()]++
+	acc := results[len(results)-1].v
+	for i := len(results) - 2; i >= 0; i-- {
+		acc = ex.mergeVals(results[i].cond, results[i].v, acc, fn)
+	}
+	return acc
+}
+
+func (ex *Exec) mergeVals(c *Term, a, b Value, fn *ssa.Function) Value {
+	switch x := a.(type) {
+	case *Term:
+		return ex.tc.Ite(c, x, b.(*Term))
+	case Tuple:
+		y := b.(Tuple)
+		out := make(Tuple, len(x))
+		for i := range x {
+			out[i] = ex.mergeVals(c, x[i], y[i], fn)
+		}
+		return out
+	case nil:
+		return nil
+	}
+	ex.unsupported("merge of result type in " + fn.String())
+	return nil
 }
 
 // choose: n-way nondeterministic choice (no solver involved)
@@ -471,6 +597,14 @@ func (ex *Exec) callFn(caller *frame, fn *ssa.Function, args []Value, env []Valu
 		}
 		ex.unsupported("external function " + name)
 	}
+	if ex.local == nil && ex.mergeFns[name] && env == nil {
+		return ex.mergeCall(caller, fn, args)
+	}
+	return ex.callFnBody(caller, fn, args, env)
+}
+
+func (ex *Exec) callFnBody(caller *frame, fn *ssa.Function, args []Value, env []Value) Value {
+	name := fn.String()
 	if fn.Pkg != nil {
 		ex.ensureInit(fn.Pkg)
 	} else if fn.Origin() != nil && fn.Origin().Pkg != nil {
@@ -2000,7 +2134,7 @@ func (ex *Exec) copyOp(dst, src Value) Value {
 	return nil
 }
 
-func (ex *Exec) cfgMapOrders() bool  { return true }
+func (ex *Exec) cfgMapOrders() bool  { return ex.mapOrders }
 func (ex *Exec) cfgHavocFloat() bool { return true }
 
 func debugf(format string, a ...interface{}) {
